@@ -86,7 +86,64 @@ func isNamed(t types.Type, n *types.Named) bool {
 
 // callee returns the statically resolved callee of a call instruction (nil for dynamic calls).
 func callee(ci ssa.CallInstruction) *ssa.Function {
-	return ci.Common().StaticCallee()
+	if f := ci.Common().StaticCallee(); f != nil {
+		return f
+	}
+	if ci.Common().IsInvoke() {
+		return nil
+	}
+	// a closure kept in a local variable that is assigned once (it lives in a cell because another closure captures
+	// it, or is reached as a captured variable from inside such a closure)
+	return closureInCell(ci.Common().Value, ci.Parent(), 0)
+}
+
+func closureInCell(v ssa.Value, in *ssa.Function, depth int) *ssa.Function {
+	if depth > 3 || in == nil {
+		return nil
+	}
+	switch x := v.(type) {
+	case *ssa.MakeClosure:
+		f, _ := x.Fn.(*ssa.Function)
+		return f
+	case *ssa.Function:
+		return x
+	case *ssa.UnOp:
+		if x.Op != token.MUL {
+			return nil
+		}
+		switch a := x.X.(type) {
+		case *ssa.Alloc:
+			if sv := singleStore(a); sv != nil {
+				return closureInCell(sv, in, depth+1)
+			}
+		case *ssa.FreeVar:
+			par := in.Parent()
+			if par == nil {
+				return nil
+			}
+			for _, b := range par.Blocks {
+				for _, ins := range b.Instrs {
+					mc, ok := ins.(*ssa.MakeClosure)
+					if !ok || mc.Fn != ssa.Value(in) {
+						continue
+					}
+					for i, fv := range in.FreeVars {
+						if fv == a && i < len(mc.Bindings) {
+							switch bnd := mc.Bindings[i].(type) {
+							case *ssa.Alloc:
+								if sv := singleStore(bnd); sv != nil {
+									return closureInCell(sv, par, depth+1)
+								}
+							case *ssa.FreeVar:
+								return closureInCell(&ssa.UnOp{Op: token.MUL, X: bnd}, par, depth+1)
+							}
+						}
+					}
+				}
+			}
+		}
+	}
+	return nil
 }
 
 // origin strips generic instantiation.
